@@ -300,19 +300,16 @@ theorem get_safe {S : Item → Prop} {st : PState} {Q : PState → PState → Pr
   rw [e]
   exact h
 
-/-- `t.unexpected(token, ...)` -/
+/-- `t.unexpected(token, ...)`: reports the position of `tok` -/
+theorem unexpected_eq {α : Type} (tok : Item) (st : PState) :
+    (unexpected tok : P α) st = .error (.err tok.pos) := by
+  rfl
+
 theorem unexpected_safe {α : Type} {S : Item → Prop} {st : PState} {tok : Item} {Q : α → PState → Prop}
-    (hi : Inv EL S st) (ht : S tok) : PSafe AP S (unexpected tok : P α) st Q := by
-  unfold unexpected
-  by_cases he : (tok.typ == .tError) = true
-  · simp only [he, if_true]
-    apply PSafe.bind
-    apply modify_safe
-    exact errorf_safe ⟨Nat.zero_le _, fun h => ⟨(hi.2.1 h).1, fun h' => by simp only [beq_iff_eq] at he; rw [he] at h'; exact absurd h' (by decide), (hi.2.1 h).2.2⟩, ht, hi.2.2.2.1, hi.2.2.2.2⟩
-  · simp only [he, Bool.false_eq_true, if_false]
-    first
-    | exact errorf_safe hi
-    | (apply PSafe.bind; apply PSafe.pure; exact errorf_safe hi)
+    (_hi : Inv EL S st) (ht : S tok) : PSafe AP S (unexpected tok : P α) st Q := by
+  unfold PSafe
+  rw [unexpected_eq]
+  exact ⟨tok, ht, rfl⟩
 
 /-- `t.expect(typ, ...)` -/
 theorem expect_safe {S : Item → Prop} {st : PState} {t : ItemType} {Q : Item → PState → Prop}
